@@ -240,6 +240,11 @@ class Hooks:
         self.zero_timeout = zero_timeout
         self.lock_conflicts = 0
         self.ops = 0
+        # an external process holding the database lock past the busy timeout: an environment choice at every upsert
+        self.ctx = None
+        self.extlock_max = 0
+        self.extlock_price = 0
+        self.extlock_injected = 0
 
     def point(self, label):
         if self.on_point is not None:
@@ -250,6 +255,10 @@ class Hooks:
     def op(self, name, fn, releases=False):
         self.ops += 1
         self.point("db:%s:before" % name)
+        if name == "execute-insert" and self.ctx is not None and self.extlock_injected < self.extlock_max:
+            if self.ctx.choose("extlock", 2, self.extlock_price, "upsert") == 1:
+                self.extlock_injected += 1
+                raise _sqlite3.OperationalError("database is locked")
         while True:
             try:
                 r = fn()
@@ -345,7 +354,7 @@ def sql_proxy(hooks):
 
 
 @contextlib.contextmanager
-def scheduled(ctx, fine=False, db=True, on_point=None,
+def scheduled(ctx, fine=False, db=True, on_point=None, extlock=None,
               fine_files=("artap/job.py", "artap/datastore.py", "artap/surrogate.py", "artap/individual.py")):
     """Install the model executor (and the SQLite proxy) for the duration of one execution."""
     import artap.operators as ops
@@ -358,6 +367,8 @@ def scheduled(ctx, fine=False, db=True, on_point=None,
         hooks.sched = s
         return s
     hooks = Hooks(None, on_point=on_point)
+    if extlock:
+        hooks.ctx, hooks.extlock_max, hooks.extlock_price = ctx, extlock[0], extlock[1]
     old = (ops.Parallel, ops.delayed, ModelParallel.scheduler_factory)
     ops.Parallel, ops.delayed = ModelParallel, model_delayed
     ModelParallel.scheduler_factory = staticmethod(factory)
